@@ -67,8 +67,14 @@ class Lock:
 
 
 def run(cmd, cwd=None, timeout=None, inp=None, env=None):
-    p = subprocess.run(cmd, cwd=cwd, input=inp, stdout=subprocess.PIPE, stderr=subprocess.STDOUT, timeout=timeout, env=env,
-                       text=True, errors='replace')
+    try:
+        p = subprocess.run(cmd, cwd=cwd, input=inp, stdout=subprocess.PIPE, stderr=subprocess.STDOUT, timeout=timeout, env=env,
+                           text=True, errors='replace')
+    except subprocess.TimeoutExpired as ex:
+        # a tool that hangs is reported like one that fails (the callers treat rc != 0 as a crash of that tool), never as a
+        # Python traceback of the check itself
+        out = ex.stdout if isinstance(ex.stdout, str) else (ex.stdout or b'').decode('utf-8', 'replace')
+        return 124, (out or '') + '\n[timeout after %ss: %s]' % (timeout, ' '.join(str(c) for c in cmd[:3]))
     return p.returncode, p.stdout
 
 
